@@ -270,6 +270,10 @@ class SamplerReader:
             self.candidates.append(v.name)
         exists_call = any(isinstance(n, ast.Call) and call_name(n) == "os.path.exists" for n in walk_no_nested(cr.node))
         any_call = any(isinstance(n, ast.Call) and call_name(n) == "any" for n in walk_no_nested(cr.node))
+        # ... or the same search written as a loop over the candidates that returns True at the first one that exists
+        for lp_ in [n for n in walk_no_nested(cr.node) if isinstance(n, ast.For)]:
+            if any(isinstance(i_, ast.If) and any(isinstance(c_, ast.Call) and call_name(c_) == "os.path.exists" for c_ in ast.walk(i_.test)) and any(isinstance(r_, ast.Return) and isinstance(r_.value, ast.Constant) and r_.value.value is True for r_ in i_.body) for i_ in ast.walk(lp_)):
+                any_call = True
         ctx.ob("R-FS", "C11.3", cr, "resume is attempted iff any candidate file exists", exists_call and any_call, f"candidates {self.candidates}")
         # __init__: resume branch guarded by check_resume, else fresh SamplerClass(...)
         init = ctx.fn(tables.FS + ".__init__")
